@@ -38,17 +38,7 @@ import realcode as R
 
 # Inputs of the families below on which the real code violates the property today (excluded from generation, reported).
 KNOWN = [
-    # A namespace uri (ns = "uri" or ns = {prefix, uri}) is copied into the xmlns / xmlns:prefix declaration WITHOUT escaping:
-    #   out xml {root = {name = "a", ns = "http://e/?a=1&b=2"}};              ->  <a xmlns="http://e/?a=1&b=2">      (not well-formed)
-    #   out xml {root = {name = "a", ns = "http://e/<q>"}};                   ->  <a xmlns="http://e/<q>">           (not well-formed)
-    #   out xml {root = {name = "p:a", ns = {prefix = "p", uri = "u\" x=\"y"}}};  ->  <p:a xmlns:p="u" x="y">        (an injected attribute, uri cut short)
-    #   out xml {root = {name = "p:a", ns = {prefix = "p", uri = "a&amp;b"}}};   ->  xmlns:p="a&amp;b", read back as the uri `a&b`
-    # all with exit 0.  Clauses broken: "writes a well-formed document", "same ... namespace declarations", "every markup-significant
-    # character escaped".  (Attribute VALUES and text are escaped correctly; only the namespace declarations are not.)
-    # Namespace uris containing & < or " are kept out of every family (see known_uri).
-    dict(id='ns-uri-not-escaped', excluded='namespace uris containing & < or "',
-         input='out xml {root = {name = "a", ns = "http://e/?a=1&b=2"}};', observed='exit 0, x.xml = <a xmlns="http://e/?a=1&b=2"> ... : not well-formed (expat: invalid token)',
-         clause='well-formed document / same namespace declarations / markup-significant characters escaped'),
+    # (ns-uri-not-escaped was repaired in ucg, 26eb7a5: namespace uris containing & < " are generated again.)
     # The `encoding` field only changes the LABEL of the declaration, the bytes are always UTF-8:
     #   out xml {encoding = "ISO-8859-1", root = {name = "a", children = ["é"]}};  ->  <?xml version="1.0" encoding="ISO-8859-1"?><a>\xc3\xa9</a>
     #       an independent parser reads the text `Ã©`;   encoding = "US-ASCII" with the same text and encoding = "UTF-16" with any text are not well-formed.
@@ -575,7 +565,7 @@ NAMES = ['a', 'b', 'c', 'item', 'Node', 'x1', 'a-b', 'a.b', '_u', 'élément', '
 PREFIXES = ['p', 'q', 'myns', 'ns1', 'a-b', 'π', 'P']
 URIS_ALL = ['http://example.com', 'http://example.org/', 'urn:x:y', 'http://example.com/a?b=1&c=2', 'http://example.com/<q>', "urn:it's", 'urn:"q"', 'u', 'http://例え.jp/ü',
             'urn:a b', 'http://www.w3.org/1999/xhtml', 'urn:a>b', 'urn:%41;#x', 'a&amp;b']
-URIS = [u for u in URIS_ALL if not known_uri(u)]       # KNOWN ns-uri-not-escaped
+URIS = list(URIS_ALL)
 
 
 def gen_element(rnd, depth, scope, v11):
